@@ -105,7 +105,7 @@ CHECKS = {
                             "a backend 'failure' is a negative / NULL return of the operation-table entry (injected by the tap), plus the failures the back ends report themselves: init for 11 refused configurations (unsupported flat-XOR shapes, null / isa-l word sizes) and flat-XOR decode / reconstruct for every erasure set of hd and hd+1 fragments of 5 | 7 shapes; failures inside the plug-in's primitives (matrix inversion) are C19's subject",
                             "allocation failure is not injected"]},
     "C18": {"runs": [
-                     {"name": "tsan", "plan": "tsan", "srcs": T_SRCS, "san": "tsan", "hooks": True, "nosan": ("vsched.c",), "opts": {"quick": {"bound": 1, "drivers": 7, "bound3": 1}, "thorough": {"bound": 2, "drivers": 10, "bound3": 1}}},
+                     {"name": "tsan", "plan": "tsan", "srcs": T_SRCS, "san": "tsan", "hooks": True, "nosan": ("vsched.c",), "opts": {"quick": {"bound": 1, "drivers": 7, "bound3": 1}, "thorough": {"bound": 2, "drvmask": 0x403ff, "bound3": 1}}},
                      # data plane only, on instances created before the threads start: the threads take read locks only, so nothing orders them for TSan
                      # thorough: two preemptions on the three shared-descriptor drivers (Urs, Uxor, Uisa), one on the other five; TSan reports a
                      # data-plane race in every schedule anyway, the deeper bound is for the outputs
@@ -113,15 +113,15 @@ CHECKS = {
                      {"name": "tsan-data-b1", "plan": "tsan", "srcs": T_SRCS, "san": "tsan", "hooks": True, "nosan": ("vsched.c",), "tiers": ("thorough",), "opts": {"thorough": {"bound": 1, "drvmask": 0x3e000}}},
                      {"name": "asan-data", "plan": "asan", "srcs": T_SRCS, "san": "asan", "hooks": True, "nosan": ("vsched.c",), "opts": {"quick": {"bound": 1, "drvmask": 0x3fc00}, "thorough": {"bound": 1, "drvmask": 0x3fc00}}},
                      # bound 3 on the life-cycle drivers is the most expensive run: last, with the largest share of whatever time is left
-                     {"name": "asan", "plan": "asan", "srcs": T_SRCS, "san": "asan", "hooks": True, "nosan": ("vsched.c",), "weight": 4, "opts": {"quick": {"bound": 2, "drivers": 7, "bound3": 1}, "thorough": {"bound": 3, "drivers": 10, "bound3": 2}}}],
+                     {"name": "asan", "plan": "asan", "srcs": T_SRCS, "san": "asan", "hooks": True, "nosan": ("vsched.c",), "weight": 4, "opts": {"quick": {"bound": 2, "drivers": 7, "bound3": 1}, "thorough": {"bound": 3, "drvmask": 0x403ff, "bound3": 2}}}],
             "level": "model_checking", "deadline": {"quick": 200, "thorough": 2400},
             "rule": ("stateless depth-first enumeration of all interleavings of 2-3 real threads under a serialising scheduler: scheduling points are the guarded yield hooks in the "
                      "registry and GF-table code and every rwlock/mutex operation (modelled, so a thread asking for a held lock is disabled); iterative preemption bounding; each "
                      "schedule is one execution of the real library in a forked child, once under AddressSanitizer and once under ThreadSanitizer (the scheduler's futex hand-offs are "
                      "invisible to TSan, so conflicting accesses not ordered by a real lock are reported in every schedule); per-thread results are compared with the sequential "
                      "execution; states = executions (schedules), transitions = scheduling points taken, non-trivial = at least one switch away from a runnable thread"),
-            "assumptions": ["2-3 threads; drivers W1 (two threads create/use/destroy their own rs_vand instance), W2/W2b (shared descriptor used while another thread creates/destroys its own instance), "
-                            "W4 (last instance destroyed while another thread creates), W5 (concurrent creates kept alive; descriptors compared), W6/W7 (two flat_xor_hd / two isa_l instances), W3/W2+/W1x3 with three threads; "
+            "assumptions": ["2-3 threads (4 in one thorough driver); drivers W1 (two threads create/use/destroy their own rs_vand instance), W2/W2b (shared descriptor used while another thread creates/destroys its own instance), "
+                            "W4 (last instance destroyed while another thread creates), W5 (concurrent creates kept alive; descriptors compared), W6/W7 (two flat_xor_hd / two isa_l instances), W3/W2+/W1x3 with three threads, W4x with four (thorough, one preemption); "
                             "U* (two threads running the whole data plane - encode, 9 decode variants, reconstruct, fragments_needed, metadata incl. opposite-endian headers, validation - on one shared or two separate "
                             "pre-created rs_vand (3,3) / flat_xor_hd (6,6,4) / isa_l (3,3) instances; only read locks are taken, so TSan sees the calls as unordered)",
                             "interleavings are explored at hooked points only; accesses between hooks are covered by the ThreadSanitizer monitor on the same schedules, not by further interleaving",
